@@ -54,6 +54,7 @@ type Contract struct {
 	Loops    map[int]*LoopSpec
 	MapRange map[int]string
 	SortCall map[int]string // ordinal of a sort.Slice call -> "total"
+	Variant  *Clause        // recursion measure (int, >= 0, strictly smaller at every recursive call)
 	ErrDrops []string       // call sites (callee#n | callee#*) whose error result is dropped on purpose, with the reason
 	PanicsIf *Clause
 	Asserts  []*Clause
@@ -108,7 +109,7 @@ type ContractSet struct {
 
 var clauseKeywords = map[string]bool{
 	"func": true, "props": true, "requires": true, "ensures": true, "pure": true, "opaque": true, "propagates": true, "errignorable": true, "inline": true,
-	"trusted": true, "assigns": true, "loop": true, "maprange": true, "sortcall": true, "errdrop": true, "panics": true, "at": true,
+	"trusted": true, "assigns": true, "loop": true, "maprange": true, "sortcall": true, "errdrop": true, "variant": true, "panics": true, "at": true,
 	"pred": true, "ghost": true, "abstract": true, "reveal": true, "reads": true, "lemma": true, "typeinv": true, "axiom": true, "valueptr": true,
 	"note": true, "end": true, "immutable": true,
 }
@@ -315,6 +316,11 @@ func (cs *ContractSet) parseFile(pkg, file, text string) error {
 				return fmt.Errorf("%s:%d: maprange ordinal: %v", file, ln, err)
 			}
 			cur.MapRange[n] = strings.Join(f[1:], " ")
+		case "variant":
+			cur.Variant = mk("variant")
+			if len(cur.Variant.Props) == 0 {
+				cur.Variant.Props = []string{"C13"}
+			}
 		case "errdrop":
 			// errdrop callee#n reason...  -- the error of that call is deliberately not propagated
 			if len(strings.Fields(rest)) < 2 {
